@@ -736,3 +736,300 @@ Proof.
     rewrite E. apply upd_good with (rs := recs s); auto.
   - intros f. rewrite upd_beacon_init. rewrite (I f). rewrite upd_beacon_init. reflexivity.
 Qed.
+
+(* ---- G. every operation preserves the invariant ---------------------------------------------- *)
+Lemma inv_init : Inv init_st.
+Proof.
+  split; [constructor | split]; cbn; auto.
+  intros f asc. split; cbn; intros H; [auto | discriminate].
+Qed.
+
+Lemma fam_eqb_eq a b : fam_eqb a b = true <-> a = b.
+Proof. destruct a, b; cbn; split; intros H; auto; discriminate. Qed.
+
+Lemma key_has_found rs f vt k r : find_rec k rs = Some r -> key_has rs f vt k = has_attr f vt r.
+Proof. unfold key_has. intros ->. reflexivity. Qed.
+Lemma key_attr_found rs f k r : find_rec k rs = Some r -> key_attr rs f k = raw_attr f r.
+Proof. unfold key_attr. intros ->. reflexivity. Qed.
+Lemma key_has_none rs f vt k : find_rec k rs = None -> key_has rs f vt k = false.
+Proof. unfold key_has. intros ->. reflexivity. Qed.
+
+Lemma find_rec_app_new rs r : find_rec (r_key r) rs = None -> find_rec (r_key r) (rs ++ [r]) = Some r.
+Proof. induction rs as [|x t IH]; simpl; [rewrite skey_eqb_refl; auto|].
+  destruct (skey_eqb (r_key x) (r_key r)); [discriminate | auto]. Qed.
+Lemma find_rec_replace rs r old : find_rec (r_key r) rs = Some old -> find_rec (r_key r) (replace_rec r rs) = Some r.
+Proof. induction rs as [|x t IH]; simpl; [discriminate|].
+  destruct (skey_eqb (r_key x) (r_key r)) eqn:E; simpl; [rewrite skey_eqb_refl; auto | rewrite E; auto]. Qed.
+
+Lemma inv_set s k ct v c u e : Inv s -> Inv (do_set false s k ct v c u e).
+Proof.
+  intros I. pose proof I as [N _]. unfold do_set. destruct (find_rec k (recs s)) as [old|] eqn:F.
+  - (* existing record, updated in place *)
+    set (r := mkrec k ct v _ _ _ _ _ _).
+    assert (Kr : r_key r = k) by reflexivity.
+    pose proof (find_rec_key _ _ _ F) as [_ Ko].
+    assert (F' : find_rec k (replace_rec r (recs s)) = Some r).
+    { rewrite <- Kr. eapply find_rec_replace. rewrite Kr. exact F. }
+    apply upd_all_inv; auto.
+    + rewrite <- Kr. eapply touches_replace; [exact N | rewrite Kr; exact F].
+    + intros f Hd _. rewrite (key_has_found _ f _ _ _ F'), (key_has_found _ f _ _ _ F),
+        (key_attr_found _ f _ _ F'), (key_attr_found _ f _ _ F).
+      destruct f; cbn in Hd; try discriminate.
+      * cbn. split; auto; intros _; congruence.
+      * apply orb_false_iff in Hd. destruct Hd as [_ Hc]. destruct c; [discriminate|]. cbn. auto.
+      * apply orb_false_iff in Hd. destruct Hd as [_ Hc]. destruct u; [discriminate|]. cbn. auto.
+      * apply orb_false_iff in Hd. destruct Hd as [_ Hc]. destruct e; [discriminate|]. cbn. auto.
+    + intros f Hd Ha. rewrite Hd in Ha. discriminate.
+    + intros f Hd. rewrite Hd. rewrite (key_has_found _ f _ _ _ F'). reflexivity.
+  - (* new record *)
+    set (r := mkrec k ct v _ _ _ _ _ _).
+    assert (Kr : r_key r = k) by reflexivity.
+    assert (F' : find_rec k (recs s ++ [r]) = Some r).
+    { rewrite <- Kr. apply find_rec_app_new. rewrite Kr. exact F. }
+    apply upd_all_inv; auto.
+    + rewrite <- Kr. apply touches_append; [exact N | rewrite Kr; exact F].
+    + intros f _ Ha. cbn in Ha. rewrite (key_has_found _ f _ _ _ F'), (key_has_none _ f _ _ F), Ha.
+      split; auto. discriminate.
+    + intros f _ Ha. cbn in Ha. rewrite (key_has_found _ f _ _ _ F'), (key_has_none _ f _ _ F), Ha. auto.
+    + intros f Hd. discriminate.
+Qed.
+
+Lemma inv_del s k : Inv s -> Inv (do_del s k).
+Proof.
+  intros I. pose proof I as [N _]. unfold do_del. destruct (find_rec k (recs s)) eqn:F; auto.
+  destruct (touches_remove (recs s) k N) as [T Fk].
+  destruct (remove_rec k (recs s)) as [|x t] eqn:E; [apply inv_init|].
+  apply upd_all_inv; auto.
+  - intros f Hd. discriminate.
+  - intros f Hd. discriminate.
+  - intros f _. rewrite (key_has_none _ f _ _ Fk). reflexivity.
+Qed.
+
+Lemma carrier_keys_vt f vt vt' rs : f <> FValue -> carrier_keys f vt rs = carrier_keys f vt' rs.
+Proof. intros H. unfold carrier_keys. f_equal. apply filter_ext. intros r. destruct f; auto. contradiction. Qed.
+Lemma good_vt f vt vt' rs asc b : f <> FValue -> good rs vt f asc b -> good rs vt' f asc b.
+Proof. intros H. unfold good. rewrite (carrier_keys_vt f vt vt' rs H). auto. Qed.
+
+Lemma inv_prepare s vt : Inv s -> Inv (prepare_value s vt) /\ vtype (prepare_value s vt) = vt /\ recs (prepare_value s vt) = recs s.
+Proof.
+  intros [N [G I]]. unfold prepare_value. destruct (N.eqb_spec (vtype s) vt) as [E|NE].
+  - split; [split; [exact N | split; [exact G | exact I]] | split; [exact E | reflexivity]].
+  - split; [|split; reflexivity]. split; [exact N | split]; cbn.
+    + intros f asc. destruct f; cbn; try (apply (good_vt _ (vtype s)); [discriminate | apply G]).
+      split; cbn; intros H; [reflexivity | discriminate].
+    + intros f. destruct f; cbn; auto.
+Qed.
+
+Lemma inv_build s f cs :
+  Inv s -> Permutation cs (carrier_keys f (vtype s) (recs s)) ->
+  Inv (build_family s f cs) /\ (forall asc, b_init (bcn (build_family s f cs) f asc) = true) /\
+  recs (build_family s f cs) = recs s /\ vtype (build_family s f cs) = vtype s.
+Proof.
+  intros [N [G I]] P.
+  assert (BG : forall asc, good (recs s) (vtype s) f asc (build_beacon (recs s) f asc cs (bcn s f asc))).
+  { intros asc. unfold build_beacon. destruct (b_init (bcn s f asc)) eqn:E; [apply G|].
+    destruct (G f asc) as [G0 _]. rewrite (G0 E). cbn [app]. apply sort_slice_good. exact P. }
+  assert (BI : forall asc, b_init (build_beacon (recs s) f asc cs (bcn s f asc)) = true).
+  { intros asc. unfold build_beacon. destruct (b_init (bcn s f asc)) eqn:E; auto. }
+  split; [|split; [|split]]; cbn; auto.
+  - split; [|split]; cbn; auto.
+    + intros f' asc. destruct (fam_eqb f' f) eqn:E; [apply fam_eqb_eq in E; subst; apply BG | apply G].
+    + intros f'. destruct (fam_eqb f' f) eqn:E; [apply fam_eqb_eq in E; subst; rewrite !BI; auto | apply I].
+  - intros asc. replace (fam_eqb f f) with true by (destruct f; auto). apply BI.
+Qed.
+
+Lemma inv_touch s f asc :
+  Inv s -> b_init (bcn s f asc) = true -> Inv (set_bcn s f asc (mkb true (b_slice (bcn s f asc)))).
+Proof.
+  intros [N [G I]] Hi.
+  assert (E : mkb true (b_slice (bcn s f asc)) = bcn s f asc) by (destruct (bcn s f asc); cbn in *; congruence).
+  rewrite E. split; [|split]; cbn; auto.
+  - intros f' a'. destruct (fam_eqb f' f && Bool.eqb a' asc) eqn:C; [|apply G].
+    apply andb_true_iff in C. destruct C as [C1 C2]. apply fam_eqb_eq in C1. apply Bool.eqb_prop in C2. subst. apply G.
+  - intros f'. destruct (fam_eqb f' f) eqn:C; cbn; [|apply I].
+    apply fam_eqb_eq in C. subst. destruct asc; cbn; apply I.
+Qed.
+
+(* the state in which GetManyFromOrderPosition runs *)
+Definition read_state (s : st) (i : idx) : st :=
+  match i with
+  | IValue vt => build_family (prepare_value s vt) FValue (carrier_keys FValue vt (recs s))
+  | _ => build_family s (fam_of i) (carrier_keys (fam_of i) 0%N (recs s))
+  end.
+
+Lemma read_state_inv s i :
+  Inv s ->
+  Inv (read_state s i) /\ (forall asc, b_init (bcn (read_state s i) (fam_of i) asc) = true) /\
+  recs (read_state s i) = recs s /\
+  carrier_keys (fam_of i) (vtype (read_state s i)) (recs s) = carrier_keys (fam_of i) (vt_of i 0%N) (recs s).
+Proof.
+  intros I. destruct i as [| | | |vt]; cbn [read_state fam_of vt_of].
+  1-4: (match goal with |- context [build_family ?s0 ?f ?cs] =>
+          destruct (inv_build s0 f cs I) as [A [B [C D]]];
+          [ rewrite (carrier_keys_vt f 0%N (vtype s0)) by discriminate; apply Permutation_refl
+          | split; [exact A | split; [exact B | split; [exact C | rewrite D; apply carrier_keys_vt; discriminate]]] ] end).
+  destruct (inv_prepare s vt I) as [Ip [Ev Er]].
+  destruct (inv_build (prepare_value s vt) FValue (carrier_keys FValue vt (recs s)) Ip) as [A [B [C D]]].
+  - rewrite Ev, Er. apply Permutation_refl.
+  - split; [exact A | split; [exact B | split; [congruence | rewrite D, Ev; reflexivity]]].
+Qed.
+
+Lemma do_read_eq s i asc from lim ft tu :
+  do_read false s i asc from lim ft tu =
+  let s1 := read_state s i in
+  let f := fam_of i in
+  let b := bcn s1 f asc in
+  let w (o : option Z) := if is_time f then option_map (fun z => [z]) o else None in
+  (set_bcn s1 f asc (mkb true (b_slice b)),
+   get_many asc (b_slice b) (map (key_attr (recs s1) f) (b_slice b)) (Z.of_N from)
+            (if N.eqb lim 0 then Z.of_nat (length (recs s)) else Z.of_N lim) (w ft) (w tu)).
+Proof. destruct i; reflexivity. Qed.
+
+Lemma inv_read s i asc from lim ft tu : Inv s -> Inv (fst (do_read false s i asc from lim ft tu)).
+Proof.
+  intros I. rewrite do_read_eq. cbv zeta. cbn [fst].
+  destruct (read_state_inv s i I) as [A [B _]]. apply inv_touch; auto.
+Qed.
+
+Lemma inv_step s o : Inv s -> Inv (fst (step false s o)).
+Proof.
+  intros I. destruct o; cbn [step fst].
+  - apply inv_set; auto.
+  - apply inv_del; auto.
+  - destruct (do_read false s i asc from lim ft tu) eqn:E. cbn [fst].
+    change s0 with (fst (s0, o)). rewrite <- E. apply inv_read; auto.
+Qed.
+
+Lemma inv_run ops : forall s, Inv s -> Inv (run false s ops).
+Proof. induction ops as [|o t IH]; cbn [run]; intros s I; auto. apply IH, inv_step, I. Qed.
+
+(* ---- H. a read in a state that satisfies the invariant is a spec page ------------------------- *)
+Definition dummy_rec : rec := mkrec [] 0%N [] 0 0 0 false false false.
+Definition getr (rs : list rec) (k : skey) : rec := match find_rec k rs with Some r => r | None => dummy_rec end.
+
+Lemma win_in_win f ft tu a :
+  win (if is_time f then option_map (fun z => [z]) ft else None)
+      (if is_time f then option_map (fun z => [z]) tu else None) a = in_win f ft tu a.
+Proof. unfold win, in_win. destruct (is_time f), ft, tu; reflexivity. Qed.
+
+Lemma nodup_recs rs : NoDup (map r_key rs) -> NoDup rs.
+Proof. apply NoDup_map_inv. Qed.
+
+Lemma filter_ssorted {X} (R : X -> X -> Prop) p l : StronglySorted R l -> StronglySorted R (filter p l).
+Proof. induction 1 as [|x t S IH F]; simpl; [constructor|]. destruct (p x); auto. constructor; auto.
+  rewrite Forall_forall in *. intros y Hy. apply filter_In in Hy. apply F. tauto. Qed.
+
+Lemma page_of_map {X Y} (g : X -> Y) from lim l : page_of from lim (map g l) = map g (page_of from lim l).
+Proof. unfold page_of. destruct lim; rewrite ?firstn_map, ?skipn_map; rewrite <- ?skipn_map; auto.
+  rewrite skipn_map. rewrite firstn_map. reflexivity. Qed.
+
+Lemma page_of_count {X} from n (l : list X) : (length l <= n)%nat -> page_of from n l = page_of from 0 l.
+Proof. intros H. unfold page_of. destruct n; auto. apply firstn_all2. rewrite skipn_length. lia. Qed.
+
+Theorem read_is_spec_page s i asc from lim ft tu :
+  Inv s ->
+  exists page, snd (do_read false s i asc from lim ft tu) = Some page /\
+               is_spec_page (recs s) i asc from lim ft tu page.
+Proof.
+  intros I. pose proof I as [N _].
+  rewrite do_read_eq. cbv zeta. cbn [snd].
+  destruct (read_state_inv s i I) as [[_ [G _]] [B [Er Ec]]].
+  set (s1 := read_state s i) in *. set (f := fam_of i) in *.
+  specialize (G f asc). destruct G as [_ G]. destruct (G (B asc)) as [P S]. clear G.
+  rewrite Er in *. rewrite Ec in P.
+  set (slice := b_slice (bcn s1 f asc)) in *.
+  set (lim' := if N.eqb lim 0 then Z.of_nat (length (recs s)) else Z.of_N lim).
+  rewrite (page_correct_on_sorted asc (key_attr (recs s) f) slice (Z.of_N from) lim') by (auto; unfold lim'; destruct (N.eqb lim 0); lia).
+  eexists. split; [reflexivity|].
+  set (Wk := filter (fun k => win _ _ (key_attr (recs s) f k)) slice).
+  (* facts about the slice keys *)
+  assert (KS : forall k, In k slice -> exists r, find_rec k (recs s) = Some r /\ In r (recs s) /\ r_key r = k /\ has_attr f (vt_of i 0%N) r = true).
+  { intros k Hk. assert (Hc : In k (carrier_keys f (vt_of i 0%N) (recs s))) by (eapply Permutation_in; eauto).
+    apply carrier_in in Hc; auto. unfold key_has in Hc. destruct (find_rec k (recs s)) as [r|] eqn:F; [|discriminate].
+    destruct (find_rec_key _ _ _ F). exists r. auto. }
+  assert (NSl : NoDup slice) by (eapply Permutation_NoDup; [apply Permutation_sym; exact P | apply carrier_nodup; exact N]).
+  assert (WkS : forall k, In k Wk -> In k slice) by (intros k Hk; apply filter_In in Hk; tauto).
+  exists (map (getr (recs s)) Wk).
+  assert (MK : map r_key (map (getr (recs s)) Wk) = Wk).
+  { rewrite map_map. rewrite <- (map_id Wk) at 2. apply map_ext_in. intros k Hk.
+    destruct (KS k (WkS k Hk)) as [r [F [_ [Kr _]]]]. unfold getr. rewrite F. exact Kr. }
+  split; [|split].
+  - (* same records *)
+    apply NoDup_Permutation.
+    + apply (NoDup_map_inv r_key). rewrite MK. apply NoDup_filter. exact NSl.
+    + unfold wanted. apply NoDup_filter. apply nodup_recs. exact N.
+    + intros r. unfold wanted. rewrite filter_In, in_map_iff. split.
+      * intros [k [E Hk]]. pose proof Hk as Hk'. apply filter_In in Hk'. destruct Hk' as [Hs Hw].
+        destruct (KS k Hs) as [r' [F [Hin [Kr Ha]]]]. unfold getr in E. rewrite F in E. subst r'.
+        split; auto. fold f. rewrite Ha. cbn [andb]. unfold f in Hw. rewrite win_in_win in Hw.
+        fold f in Hw. rewrite (key_attr_found _ f _ _ F) in Hw. exact Hw.
+      * intros [Hin Hc]. fold f in Hc. apply andb_true_iff in Hc. destruct Hc as [Ha Hw].
+        exists (r_key r). pose proof (find_rec_in _ _ N Hin) as F. split; [unfold getr; rewrite F; auto|].
+        apply filter_In. split.
+        -- eapply Permutation_in; [apply Permutation_sym; exact P|]. apply carrier_in; auto.
+           rewrite (key_has_found _ _ _ _ _ F). exact Ha.
+        -- unfold f. rewrite win_in_win. fold f. rewrite (key_attr_found _ f _ _ F). exact Hw.
+  - (* sorted by the attribute *)
+    assert (SW : Sorted (attr_le (recs s) f asc) Wk).
+    { apply StronglySorted_Sorted, filter_ssorted, Sorted_StronglySorted; auto.
+      intros x y z. apply attr_le_trans. }
+    assert (SL : Sorted (fun a b => attr_le (recs s) f asc (r_key a) (r_key b)) (map (getr (recs s)) Wk)).
+    { apply Sorted_map_inv. rewrite MK. exact SW. }
+    eapply Sorted_ext_in; [|exact SL]. intros x y Hx Hy. unfold attr_le, rec_le.
+    apply in_map_iff in Hx, Hy. destruct Hx as [kx [Ex Hx]], Hy as [ky [Ey Hy]].
+    destruct (KS kx (WkS kx Hx)) as [rx [Fx [_ [Kx _]]]]. destruct (KS ky (WkS ky Hy)) as [ry [Fy [_ [Ky _]]]].
+    unfold getr in Ex, Ey. rewrite Fx in Ex. rewrite Fy in Ey. subst rx ry.
+    rewrite Kx, Ky, (key_attr_found _ f _ _ Fx), (key_attr_found _ f _ _ Fy). auto.
+  - (* the paged cut *)
+    rewrite <- page_of_map, MK. replace (Z.to_nat (Z.of_N from)) with (N.to_nat from) by lia. unfold lim'. destruct (N.eqb_spec lim 0) as [L0|LN].
+    + subst lim. rewrite Nat2Z.id. cbn [N.to_nat].
+      apply page_of_count. unfold Wk.
+      eapply Nat.le_trans; [apply filter_len_le|].
+      rewrite (Permutation_length P). unfold carrier_keys. rewrite map_length. apply filter_len_le.
+    + replace (Z.to_nat (Z.of_N lim)) with (N.to_nat lim) by lia. reflexivity.
+Qed.
+
+(* The property: after every history, every index read (any index type, order, offset, limit,
+   time window) returns a page that is the paged cut of the wanted records sorted by the
+   attribute, for some order of the ties; in particular it never fails. *)
+Theorem reads_correct ops i asc from lim ft tu :
+  let s := run false init_st ops in
+  exists page, snd (do_read false s i asc from lim ft tu) = Some page /\
+               is_spec_page (recs s) i asc from lim ft tu page.
+Proof. intros s. apply read_is_spec_page. apply inv_run, inv_init. Qed.
+
+(* ---- I. the maintenance rules of the pinned commit (legacy = true) violate the property ----- *)
+(* (a) Float64 value index built by a read, then one insert: the ascending read returns
+       1.5 2.5 3.5 0.5 (values in quarters: 6 10 14 2) – not a valid page. *)
+Definition legacy_witness_a : list op :=
+  [OSet [97] 13%N [6] None None None; OSet [98] 13%N [10] None None None; OSet [99] 13%N [14] None None None;
+   ORead (IValue 13%N) true 0%N 0%N None None;
+   OSet [100] 13%N [2] None None None].
+(* (b) UpdatedAt of an indexed record moved by an update; the update-time read is unsorted *)
+Definition legacy_witness_b : list op :=
+  [OSet [97] 7%N [1] None (Some 10) None; OSet [98] 7%N [2] None (Some 20) None; OSet [99] 7%N [3] None (Some 30) None;
+   ORead IUpdated true 0%N 0%N None None;
+   OSet [97] 7%N [1] None (Some 80) None].
+
+Definition legacy_read_valid (ops : list op) (i : idx) : bool :=
+  let s := run true init_st ops in
+  match snd (do_read true s i true 0%N 0%N None None) with
+  | Some page => valid_page (recs s) i true 0%N 0%N None None page
+  | None => false
+  end.
+
+Lemma legacy_reads_refuted :
+  exists ops i, legacy_read_valid ops i = false.
+Proof. exists legacy_witness_a, (IValue 13%N). vm_compute. reflexivity. Qed.
+Lemma legacy_time_reads_refuted :
+  exists ops, legacy_read_valid ops IUpdated = false.
+Proof. exists legacy_witness_b. vm_compute. reflexivity. Qed.
+(* the same histories under the current rules *)
+Example current_witness_a_page :
+  snd (do_read false (run false init_st legacy_witness_a) (IValue 13%N) true 0%N 0%N None None)
+  = Some [[100]; [97]; [98]; [99]].
+Proof. vm_compute. reflexivity. Qed.
+Example current_witness_b_page :
+  snd (do_read false (run false init_st legacy_witness_b) IUpdated true 0%N 0%N (Some 15) (Some 81))
+  = Some [[98]; [99]; [97]].
+Proof. vm_compute. reflexivity. Qed.
